@@ -30,6 +30,7 @@ type Env struct {
 	depth int
 	shim  *State
 	heads map[int]*Env
+	boundTypes map[string]types.Type
 }
 
 var untypedInt = types.Typ[types.UntypedInt]
@@ -169,7 +170,7 @@ func (e *Env) loadState() *State {
 		return e.st
 	}
 	if e.shim == nil {
-		e.shim = &State{heap: e.st.heap, cellVals: e.st.cellVals, alloc: e.st.alloc, alloc0: e.st.alloc0, epoch: e.st.epoch}
+		e.shim = &State{heap: e.st.heap, cellVals: e.st.cellVals, alloc: e.st.alloc, alloc0: e.st.alloc0, events: e.st.events}
 	}
 	return e.shim
 }
@@ -299,6 +300,9 @@ func (e *Env) eval(ex ast.Expr) (Val, types.Type) {
 func (e *Env) ident(name string) (Val, types.Type) {
 	if e.bound != nil {
 		if b, ok := e.bound[name]; ok {
+			if t, ok := e.boundTypes[name]; ok {
+				return b, t
+			}
 			return b, types.Typ[types.Int]
 		}
 	}
@@ -533,6 +537,7 @@ func (e *Env) callExpr(n *ast.CallExpr) (Val, types.Type) {
 		}
 		o := *e.old
 		o.bound = e.bound
+		o.boundTypes = e.boundTypes
 		return o.eval(n.Args[0])
 	case "athead":
 		// athead(k, e): value of e at the last visit of the head of loop k
@@ -543,6 +548,7 @@ func (e *Env) callExpr(n *ast.CallExpr) (Val, types.Type) {
 		}
 		o := *h
 		o.bound = e.bound
+		o.boundTypes = e.boundTypes
 		return o.eval(n.Args[1])
 	case "len":
 		v, t := e.eval(n.Args[0])
@@ -577,6 +583,14 @@ func (e *Env) callExpr(n *ast.CallExpr) (Val, types.Type) {
 			sub.bound[k] = v
 		}
 		sub.bound[id] = bv
+		if e.boundTypes != nil {
+			sub.boundTypes = map[string]types.Type{}
+			for k, v := range e.boundTypes {
+				if k != id {
+					sub.boundTypes[k] = v
+				}
+			}
+		}
 		body, _ := sub.eval(n.Args[3])
 		rng := And(Le(e.x.scalar(lo), bv), Lt(bv, e.x.scalar(hi)))
 		if name == "forall" {
@@ -649,6 +663,44 @@ func (e *Env) callExpr(n *ast.CallExpr) (Val, types.Type) {
 		k, _ := e.eval(n.Args[1])
 		_, ok := e.x.mapLoad(e.loadState(), mt, e.x.scalar(m), k)
 		return ok, boolT
+	case "rlen":
+		v, _ := e.eval(n.Args[0])
+		return UF("rvalue.len", SInt, e.x.scalar(v)), intT
+	case "rkind":
+		v, _ := e.eval(n.Args[0])
+		return UF("rvalue.kind", SInt, e.x.scalar(v)), intT
+	case "kindof":
+		// kindof(x): reflect kind of the dynamic type of interface value x
+		v, _ := e.eval(n.Args[0])
+		return UF("kindOfTag", SInt, v.(*IfaceV).Tag), intT
+	case "emptymap":
+		m, mt := e.eval(n.Args[0])
+		ks, _ := e.x.mapSorts(mt)
+		dom := Select(e.st.heapArr(mapDomKey(mt), ArrSort(SInt, ArrSort(ks, SBool))), e.x.scalar(m))
+		freshCtr++
+		bv := &T{Op: "sym", Name: fmt.Sprintf("b!k!%d", freshCtr), Sort: ks}
+		return Forall([]*T{bv}, Not(Select(dom, bv))), boolT
+	case "forallkey":
+		// forallkey(m, k, body): for every key k present in map m
+		m, mt := e.eval(n.Args[0])
+		ks, _ := e.x.mapSorts(mt)
+		id := n.Args[1].(*ast.Ident).Name
+		freshCtr++
+		bv := &T{Op: "sym", Name: fmt.Sprintf("b!%s!%d", id, freshCtr), Sort: ks}
+		sub := *e
+		sub.bound = map[string]*T{}
+		sub.boundTypes = map[string]types.Type{}
+		for k, v := range e.bound {
+			sub.bound[k] = v
+		}
+		for k, v := range e.boundTypes {
+			sub.boundTypes[k] = v
+		}
+		sub.bound[id] = bv
+		sub.boundTypes[id] = mt.Underlying().(*types.Map).Key()
+		body, _ := sub.eval(n.Args[2])
+		dom := Select(e.st.heapArr(mapDomKey(mt), ArrSort(SInt, ArrSort(ks, SBool))), e.x.scalar(m))
+		return Forall([]*T{bv}, Implies(Select(dom, bv), e.x.scalar(body))), boolT
 	case "funcid":
 		// funcid(parser.Parser.parseInfixExp): the id of a function
 		key := exprString(n.Args[0])
@@ -676,13 +728,19 @@ func (e *Env) callExpr(n *ast.CallExpr) (Val, types.Type) {
 		var parts []*T
 		for _, k := range tbl.keys {
 			sub := *e
-			sub.vars = copyVars(e.vars)
-			sub.types = copyTypes(e.types)
-			sub.vars[id] = k
+			sub.bound = map[string]*T{}
+			sub.boundTypes = map[string]types.Type{}
+			for kk, v := range e.bound {
+				sub.bound[kk] = v
+			}
+			for kk, v := range e.boundTypes {
+				sub.boundTypes[kk] = v
+			}
+			sub.bound[id] = k
 			if k.Sort == SStr {
-				sub.types[id] = types.Typ[types.String]
+				sub.boundTypes[id] = types.Typ[types.String]
 			} else {
-				sub.types[id] = types.Typ[types.Int]
+				sub.boundTypes[id] = types.Typ[types.Int]
 			}
 			b, _ := sub.eval(n.Args[2])
 			parts = append(parts, e.x.scalar(b))
@@ -739,9 +797,16 @@ func (e *Env) callExpr(n *ast.CallExpr) (Val, types.Type) {
 		}
 		if sf.Body == "" {
 			var args []*T
-			for _, a := range n.Args {
-				v, _ := e.eval(a)
-				args = append(args, e.x.scalar(v))
+			for i, a := range n.Args {
+				v, t := e.eval(a)
+				if pt := e.x.ld.resolveTypeString(sf.Pkg, sf.Params[i].Type); pt != nil {
+					t = pt
+				}
+				if tv, ok := v.(*T); ok {
+					args = append(args, tv)
+				} else {
+					args = append(args, e.x.flatten(v, t)...)
+				}
 			}
 			ls := e.x.leaves(rt)
 			if len(ls) != 1 {
@@ -750,7 +815,7 @@ func (e *Env) callExpr(n *ast.CallExpr) (Val, types.Type) {
 			return UF("spec!"+name, ls[0].sort, args...), rt
 		}
 		e.loadState()
-		sub := &Env{x: e.x, st: e.st, facts: e.facts, vars: map[string]Val{}, types: map[string]types.Type{}, pkg: e.x.ld.pkgByName[sf.Pkg], old: e.old, isPre: e.isPre, bound: e.bound, depth: e.depth + 1, heads: e.heads, shim: e.shim}
+		sub := &Env{x: e.x, st: e.st, facts: e.facts, vars: map[string]Val{}, types: map[string]types.Type{}, pkg: e.x.ld.pkgByName[sf.Pkg], old: e.old, isPre: e.isPre, bound: e.bound, boundTypes: e.boundTypes, depth: e.depth + 1, heads: e.heads, shim: e.shim}
 		if sub.pkg == nil {
 			sub.pkg = e.pkg
 		}
